@@ -154,7 +154,14 @@ HARNESS(h_radixheap)
     Heap* hp = new Heap(); RKEY mv[MAXN]; unsigned n = 0;
     bool has_limit = false; RKEY limit = 0;      // most recently extracted / inspected minimum: later keys must not be smaller (documented monotonicity)
     for (unsigned step = 0; step < H; ++step) {
+#ifdef SCRIPT
+        // scripted operation kinds (p push, e emplace, t top, o pop, k peak_top_key, s swap_top_bucket, c clear), symbolic keys
+        static const char script[] = SCRIPT; const char ch = script[step];
+        unsigned op = ch == 'p' ? 0 : ch == 'e' ? 1 : ch == 't' ? 2 : ch == 'o' ? 3 : ch == 'k' ? 4 : ch == 's' ? 5 : 6;
+        RKEY x = (RKEY)nondet_u8(); OBS(op);
+#else
         unsigned op = nondet_below(7); RKEY x = (RKEY)nondet_u8(); OBS(op);
+#endif
         unsigned mi = 0; for (unsigned i = 1; i < MAXN; ++i) if (i < n && mv[i] < mv[mi]) mi = i;
         switch (op) {
         case 0: case 1: if (n < MAXN && (!has_limit || !(x < limit))) { if (op == 0) hp->push(x); else hp->emplace(x, x); mv[n++] = x; } break;
